@@ -44,8 +44,19 @@ T = {
  "C39-xcdr2-mutable-lookup-order-dependent": ("C39", "XCDR2 mutable member lookup continues from the previously found member instead of the object start", "XCDR2 mutable types whose common members are in a different relative order on writer and reader side", []),
  "C40-auto-id-counter-monotone": ("C40", "derive(DdsType): the automatic member id counter of a mutable struct never decreases", "explicit ids in non-ascending order followed by members without id", []),
  "C41-optional-honoured-only-as-last-annotation": ("C41", "IDL compiler: @optional only takes effect when it is the member's last annotation", "a member with @optional followed by another annotation (e.g. @optional @id(3))", []),
+ "C01b-empty-acknack-acks-highest-sent": ("C01", "an ACKNACK with an empty bitmap acknowledges everything the writer has sent so far (not just up to base-1)", "tail loss: the last sample's DATA and HEARTBEAT are lost while an older empty ACKNACK is still in flight, no further write", []),
+ "C03b-removal-rechecks-only-when-no-reader-left": ("C03", "when a matched reader is removed a pending wait_for_acknowledgments is re-checked only if no reader is left", ">= 2 reliable readers, the unresponsive one removed while the wait is pending, the other has acknowledged everything", []),
+ "C04b-gap-heartbeat-first-sn-after-hole": ("C04", "the HEARTBEAT sent with a GAP over a history hole announces first_sn = the sequence number after the hole", "late TRANSIENT_LOCAL reader, retained history with a hole in the middle (several instances, KEEP_LAST exceeded), loss of the DATA before the hole during catch-up", []),
+ "C16b-departed-participant-only-first-reader-removed": ("C16", "when a participant departs only its first matched reader is removed from each local writer", "a remote participant with >= 2 readers matched with one local writer leaves without per-reader disposes (lease expiry, ignore_participant)", []),
+ "C22b-disposed-instance-becomes-no-writers": ("C22", "a NOT_ALIVE_DISPOSED instance flips to NOT_ALIVE_NO_WRITERS when its last writer unregisters", "autodispose_unregistered_instances = false, explicit dispose, then every writer unregisters", []),
+ "C24b-ignored-sample-refreshes-deadline": ("C24", "a dropped sample of a weaker non-owner writer refreshes the instance's deadline timestamp", "EXCLUSIVE + finite DEADLINE, owner falls silent, a weaker writer keeps writing faster than the period", []),
+ "C28b-register-at-limit-not-idempotent": ("C28", "register_instance checks max_instances before looking the instance up", "writer with finite max_instances holding exactly that many instances, re-registering one of them", []),
+ "C30b-deadline-scan-stops-at-disposed-instance": ("C30", "the offered-deadline scan stops at the first instance without a write time", ">= 2 instances written in order A, B; A disposed/unregistered; B idle for more than one period", []),
+ "C32b-wait-loops-without-reregistering": ("C32", "WaitSet::wait loops on an empty trigger list without re-registering with its conditions", "the status is read (reset) by another task between the notification and the waiter's re-collection, then changes again", []),
+ "C35b-subscriber-key-search-unbounded": ("C35", "the free subscriber key search has no end condition", "256 live subscribers in one participant and one more create_subscriber (the worker spins for ever)", []),
 }
 NOTES = {
+ "C35b-subscriber-key-search-unbounded": "initially INCONCLUSIVE (a DDS task poll that never returns stalls the single-threaded simulation; only the wall-clock watchdog fired): a CPU-time hang monitor was added to the simulation (simnet/src/hang.rs), after which it is a VIOLATION",
  "C11-alive-sample-key-from-key-holder": "initially MISSED (the check compared handles in-process only; C01/C05 use a key-first type): the end-to-end half (keyident.rs) was added, after which it is caught",
  "C07-inline-qos-offset-checked-against-datagram": "caught by C07 at once; C06 initially MISSED it (its octetsToInlineQos class had no trailing submessage): class extended, after which C06 catches it too",
  "C27-ack-watermark-max": "initially MISSED by the C27 check (single reader); the scenario got a healthy-second-reader variant, after which it is caught",
